@@ -32,11 +32,11 @@ ASSUMPTIONS = [
 
 
 def bounds(tier):
-    return {"family_graphs": len(dagfam.all_graphs()), "program_graphs": "L1 representatives (+L2 slice)"}
+    return {"family_graphs": len(dagfam.all_graphs(tier)), "program_graphs": "L1 representatives (+L2 slice)"}
 
 
 def enumerate_cases(tier, seed):
-    cases = [{"graph": n} for n, _b, _d in dagfam.all_graphs()]
+    cases = [{"graph": n} for n, _b, _d in dagfam.all_graphs(tier)]
     reps = space.representatives("quick")
     rl = []
     for sig in sorted(reps, key=repr):
@@ -341,7 +341,7 @@ def _has_functions(g):
 def run_case(case):
     import pytato as pt
     if "graph" in case:
-        graphs = {n: (b, d) for n, b, d in dagfam.all_graphs()}
+        graphs = {n: (b, d) for n, b, d in dagfam.all_graphs("thorough")}
         build, has_dup = graphs[case["graph"]]
         g = build()
         where = f"graph {case['graph']}"
